@@ -11,6 +11,11 @@ TEXT = {
  'C04': ('Binding.tla transcribes CPython call binding + context injection; TLC enumerates every grammatical signature up to the bound x context designation x flavour x registration route x input and checks ArgsExact / NoBindNoRun / CtxIsServers / ResultUnchanged; each case is dispatched to a generated method and its trace validated; the spec itself is cross-checked against a real direct call per case.', 'DESIGN 4 C04'),
  'C05': ('Wire.tla: TLC checks RoundTrip / FixPoint / WireExact / ClassOfCode over all messages of the alphabets; every message is built with the real constructors, serialised (to_json and JSONEncoder), decoded, deserialised, re-serialised; the three observations are validated by TLC against WireTrace.tla.  BatchIds.tla covers batches built by append/extend histories.', 'DESIGN 5 C05'),
  'C06': ('Wire.tla parse tables are checked by TLC to accept exactly the structurally valid documents (Strict*) over the member-alphabet products; every document is fed to the real from_json and the verdict / object contents validated by TLC; BatchIds.tla: all append/extend histories, FailureAtomic as an action property, replayed on BatchRequest/BatchResponse.', 'DESIGN 5 C06'),
+ 'C07': ('EndToEnd.tla: a client program (notation + calls) -> one request document -> dispatcher -> outcome; the expected outcome is a function of the calls only, so notation / id generator / pairing independence is a TLC-checked theorem; every program is executed with the real client wired in-process to the real dispatcher (all four sync/async pairings), the wire document, the server call log and the caller\'s value / typed exception are validated by TLC.', 'DESIGN 6 C07'),
+ 'C08': ('Client.tla: the server is an adversary; TLC enumerates every response document up to the bound (all arrays over the element alphabet, batch-level errors, malformed bodies) x strict and checks StrictRejects / MalformedIsDeser / RelatedLinked / PositionalByRequestOrder; every document is fed to the real sync and async client and the outcome (exception class, related links, positional order) validated by TLC.', 'DESIGN 6 C08'),
+ 'C09': ('Retry.tla models retried(traced(_send)) with the transport as environment: TLC explores every outcome sequence attempt by attempt and checks AtMostNPlus1 / ResendExactlyWhen / SleepsAreBackoffPrefix / LastOutcomeUnchanged / PerRequestReplaces; each terminal state is a fault sequence replayed on the real sync and async client with a scripted transport and recorded sleeps; TLC validates send / sleep / return events incl. exact delays.', 'DESIGN 6 C09'),
+ 'C11': ('No separate model: the half (sync/async, coroutine/plain) is a configuration field the expected outcomes never mention (KindIrrelevant, Expected); the corpora of C01 C03 C12 (+C02 thorough) and C07 C08 C09 C19 are executed on both halves, every execution validated against the same spec, and every pair of recorded event sequences is compared for equality by PairTrace.tla.', 'DESIGN 4 C11'),
+ 'C19': ('Retry.tla traced layer: TLC checks Paired / CompletionMatchesOutcome / ConfigOrder / CountsEqualOnExit over all outcome sequences (incl. undecodable body, identity mismatch, BaseException, cancellation) x 0..3 tracers x context modes; instrumented Tracer subclasses record begin/end/error with context identity; TLC validates.', 'DESIGN 6 C19'),
  'C10': ('AsyncBatch.tla models the asyncio loop (FIFO ready queue, one running task) serving a batch; TLC explores EVERY interleaving of suspension/resumption within the bound and checks OrderKept / ExactlyOnce / Sequential in every state; every terminal state is one schedule, enforced on the real AsyncDispatcher through driver-owned futures, and the recorded trace is validated by TLC.', 'DESIGN 4 C10'),
  'C12': ('Dispatcher.tla with middleware stacks and error-handler tables as configuration; TLC checks MwOncePerElement / EhOrder / EhOnlyOnFailure / BatchIsMap over all stacks up to the bound x 9 handler tables x request kinds; instrumented middlewares / handlers log enter/exit/handler events that TLC validates.', 'DESIGN 4 C12'),
 }
